@@ -87,24 +87,36 @@ func TestC03(t *testing.T) {
 		}
 		rows := w.Rows(sc.Tuples)
 		q := w.Internal(sc.Query)
-		base := w.RunCheck(rows, q, vsched.Config{FastBase: true}, RunOpt{})
-		if base.X.Outcome != "ok" || base.Res.Err != nil {
-			continue // C15 / C01 territory
+		// listings are paged; with page size 1 every traverse over two parents needs a second page,
+		// so a failure on a LATER page fetch is among the enumerated positions
+		pageSizes := []int{100}
+		if sc.Cfg.Expr.usesTraverse() {
+			pageSizes = []int{100, 1}
 		}
-		cov.scenarios++
-		for pos := 1; pos <= base.Calls; pos++ {
-			for _, pers := range []bool{false, true} {
-				for _, kerr := range kinds {
-					plan := memstore.FaultPlan{At: pos, Persistent: pers, Err: kerr}
-					o := w.RunCheck(rows, q, vsched.Config{FastBase: true}, RunOpt{Fault: plan})
-					cov.triples++
-					if o.Faults > 0 {
-						cov.hit++
-						if o.Res.Err != nil || o.Res.Membership != base.Res.Membership {
-							cov.changed++
+		for _, ps := range pageSizes {
+			base := w.RunCheck(rows, q, vsched.Config{FastBase: true}, RunOpt{PageSize: ps})
+			if base.X.Outcome != "ok" || base.Res.Err != nil {
+				continue // C15 / C01 territory
+			}
+			cov.scenarios++
+			for pos := 1; pos <= base.Calls; pos++ {
+				for _, pers := range []bool{false, true} {
+					for _, kerr := range kinds {
+						plan := memstore.FaultPlan{At: pos, Persistent: pers, Err: kerr}
+						o := w.RunCheck(rows, q, vsched.Config{FastBase: true}, RunOpt{Fault: plan, PageSize: ps})
+						cov.triples++
+						if o.Faults > 0 {
+							cov.hit++
+							if o.Res.Err != nil || o.Res.Membership != base.Res.Membership {
+								cov.changed++
+							}
 						}
+						mode := "base schedule"
+						if ps != 100 {
+							mode = fmt.Sprintf("base schedule, listing page size %d", ps)
+						}
+						judgeFault(sc, base, o, plan, mode, nil)
 					}
-					judgeFault(sc, base, o, plan, "base schedule", nil)
 				}
 			}
 		}
